@@ -320,6 +320,14 @@ func reportProperty(o *Options, run *propRun, meta *PropMeta, known *KnownFile, 
 		if !strings.HasPrefix(b, "github.com/") {
 			full = "github.com/blinklabs-io/gouroboros/" + b
 		}
+		if o.Tier != "thorough" {
+			// obligations of functions that are only verified in the thorough tier
+			if i := strings.Index(full, "#"); i > 0 {
+				if c := cs.Funcs[full[:i]]; c != nil && isSlowTier(c) {
+					continue
+				}
+			}
+		}
 		if _, ok := seen[full]; !ok {
 			if matchKnown(known, id, b) != nil {
 				continue
